@@ -238,7 +238,7 @@ func execRun(r run) map[string]any {
 		if o["panic"].(bool) {
 			o["d"], o["dok"], o["st"] = []int{}, false, 0
 			obs = append(obs, o)
-			return map[string]any{"name": r.Name, "prog": r.Prog, "obs": obs, "fin": []map[string]any{}, "again": [][]int{}}
+			return map[string]any{"name": r.Name, "prog": r.Prog, "obs": obs, "fin": []map[string]any{}, "again": [][]int{}, "finpanic": false}
 		}
 		after := snapshot(sp)
 		d, ok := absorbedBetween(before, after)
@@ -247,20 +247,31 @@ func execRun(r run) map[string]any {
 		obs = append(obs, o)
 	}
 	fin := make([]map[string]any, 0, len(hs))
-	for _, t := range hs {
-		f := map[string]any{"st": toks.tok("s", snapshot(spongeOf(t)))}
-		// the probe is taken on a clone so that every handle is probed in its final state
-		out, err := t.Clone().ExtractBytes(string(toBytes(probeLabel)), probeLen)
-		if err != nil {
-			fail("probe extraction failed")
+	finPanic := false
+	func() {
+		defer func() {
+			if r := recover(); r != nil { // probing a live handle must not panic either
+				finPanic = true
+			}
+		}()
+		for _, t := range hs {
+			f := map[string]any{"st": toks.tok("s", snapshot(spongeOf(t)))}
+			// the probe is taken on a clone so that every handle is probed in its final state
+			out, err := t.Clone().ExtractBytes(string(toBytes(probeLabel)), probeLen)
+			if err != nil {
+				fail("probe extraction failed")
+			}
+			f["probe"] = toks.tok("o", out)
+			f["ppre"] = toks.tok("p", out[:preLen])
+			// and the handle itself is untouched by probing its clone
+			f["st3"] = toks.tok("s", snapshot(spongeOf(t)))
+			fin = append(fin, f)
 		}
-		f["probe"] = toks.tok("o", out)
-		f["ppre"] = toks.tok("p", out[:preLen])
-		// and the handle itself is untouched by probing its clone
-		f["st3"] = toks.tok("s", snapshot(spongeOf(t)))
-		fin = append(fin, f)
+	}()
+	if finPanic {
+		fin = []map[string]any{}
 	}
-	return map[string]any{"name": r.Name, "prog": r.Prog, "obs": obs, "fin": fin, "again": [][]int{}}
+	return map[string]any{"name": r.Name, "prog": r.Prog, "obs": obs, "fin": fin, "again": [][]int{}, "finpanic": finPanic}
 }
 
 // tokensOf lists the tokens of an executed run in the order the trace specification expects.
